@@ -13,6 +13,28 @@
 //	        root of a scenario (all contents over a key subset)
 //	part D  range queries: the whole Find / TrieStore.Seek query matrix on
 //	        every content of a family
+//
+// After every step of parts A and B: StateRoot against the reference (and the
+// reference against fresh tries filled in sorted order, in reverse order and
+// by one batch), Get of every key of the universe, GetProof (must be the path
+// of the reference trie) + VerifyProof for present keys, failing GetProof and
+// failing VerifyProof of the partial path for absent keys, proofs made before
+// the step against the root after it, Find on the live trie; then on a second
+// instance of the same history: Flush, a walk over the nodes stored under the
+// root (hashes, the three invariants of doc.go, exactly the node set of the
+// reference trie, spelled content = model), reload from the root hash with
+// Get/GetProof/Find, TrieStore.Get/Seek in both directions.
+//
+// Deliberately not asserted (not promised by the property or by doc comments):
+//   - Find with maxNum <= 0 (maxNum 0 returns one element when the start node
+//     is a leaf);
+//   - whether "no results" of Find is an error or an empty list;
+//   - keys strictly extending prefix+start in a backwards Seek;
+//   - reads after a Find on a trie with unflushed changes (see
+//     assertReadsAfterFind);
+//   - that Put refuses empty keys / nil values / oversized arguments (only:
+//     a refused Put or Delete changes nothing);
+//   - refcounts, garbage and deletion of stored nodes (C11).
 package c10
 
 import (
@@ -486,13 +508,13 @@ func doSeek(ts *mpt.TrieStore, m map[string][]byte, prefix, start []byte, backwa
 
 type stats struct {
 	nodes, replays, gets, proofs, verifies, finds, seeks, walks int64
-	findBreaksReads, findOnDirty                               int64
-	tamperLists, tamperVerifies, tamperAccepted                int64
-	queryContents, queryFinds, querySeeks                      int64
-	classes                                                    map[string]int64
-	roots                                                      map[util.Uint256]struct{}
-	states                                                     map[string]struct{}
-	nontrivial                                                 map[string]struct{}
+	findBreaksReads, findOnDirty                                int64
+	tamperLists, tamperVerifies, tamperAccepted                 int64
+	queryContents, queryFinds, querySeeks                       int64
+	classes                                                     map[string]int64
+	roots                                                       map[util.Uint256]struct{}
+	states                                                      map[string]struct{}
+	nontrivial                                                  map[string]struct{}
 }
 
 func newStats() *stats {
@@ -1597,7 +1619,7 @@ type job struct {
 }
 
 func TestCheck(t *testing.T) {
-	r := vk.Start("C10", "model_checking", 100*time.Second, 19*time.Minute)
+	r := vk.Start("C10", "model_checking", 110*time.Second, 19*time.Minute)
 	debug.SetMaxStack(128 << 20) // a runaway recursion in the subject should die quickly
 	u := universe()
 	g := &global{r: r, s: newStats(), qbest: map[string]*queryCase{}, qcount: map[string]int64{}}
